@@ -326,9 +326,15 @@ class _Gen:
         pre, post = [], []
         tiny = False
         faults = []
+        force_thermal = False
         if faulty:
             kinds = self.knobs["fault_kinds"]
             kind = rng.choice(kinds)
+            can_t = self.meta["thermal"] and self.meta.get("t_feeders") and len(self.meta["t_feeders"]) < len(self.meta["feeders"])
+            if can_t and "no-t-feeder" in kinds and rng.random() < 0.35:
+                kind = "no-t-feeder"
+            if kind == "no-t-feeder" and not can_t:
+                kind = rng.choice([k_ for k_ in kinds if k_ != "no-t-feeder"] or ["tiny-budget"])
             if kind.startswith("solve-"):
                 pass
             elif kind == "tiny-budget":
@@ -350,7 +356,10 @@ class _Gen:
                 for (t, i) in self.meta["t_feeders"]:
                     pre.append({"op": "edit", "table": t, "index": i, "col": "in_service", "val": False})
                     post.append({"op": "edit", "table": t, "index": i, "col": "in_service", "val": True})
+                force_thermal = True
         kw = self.calc_kw(tiny_budget=tiny)
+        if force_thermal:
+            kw["mode"] = rng.choice(["sequential", "sequential", "bidirectional"])
         if self.prop == "C14" and not tiny and not force_plain:
             kw = self.opt_kw()
             for k in ("iter",) + STAGE_ITER:
